@@ -1,5 +1,5 @@
 """Which engine parts decide which property."""
-from .engines import deque, codec
+from .engines import deque, codec, stream
 
 # part name -> (run(res, work, tier, seed), replay(rep, work))
 PARTS = {
@@ -7,6 +7,7 @@ PARTS = {
     "deque.c16": (deque.run_c16, deque.replay),
     "codec.small": (codec.run_small, codec.replay),
     "codec.prod": (codec.run_prod, codec.replay),
+    "stream.main": (stream.run_stream, stream.replay),
 }
 
 # property -> parts whose violations (filtered by property id) decide it
@@ -17,4 +18,6 @@ PROPERTY_PARTS = {
     "C02": ["codec.small", "codec.prod"],
     "C07": ["codec.small", "codec.prod"],
     "C09": ["codec.small", "codec.prod"],
+    "C08": ["stream.main"],
+    "C06": ["stream.main"],
 }
